@@ -77,7 +77,14 @@ func (s *server) HandleRequest(ctx *types.HttpContext) {
 		if sid := ctx.Query().Peek("sid"); sid != "" {
 			server_log.Debug("setting new request for existing client")
 			if socket, ok := s.Clients().Load(sid); ok {
-				socket.Transport().OnRequest(ctx)
+				// the session may have switched transport since Verify compared
+				// them (an upgrade completing in between): the new transport does
+				// not answer plain requests
+				if transport := socket.Transport(); transport.Name() != ctx.Query().Peek("transport") {
+					s.emitAbortRequest(ctx, BAD_REQUEST, map[string]any{"name": "TRANSPORT_MISMATCH", "transport": ctx.Query().Peek("transport"), "previousTransport": transport.Name()})
+				} else {
+					transport.OnRequest(ctx)
+				}
 			} else {
 				// the session closed after Verify looked it up: still a rejected request
 				s.emitAbortRequest(ctx, UNKNOWN_SID, map[string]any{"sid": sid})
